@@ -20,8 +20,11 @@ signal of the systems themselves (every `run` that was entered has returned). `e
 system was unwound by a panic; `unwound op`: the call ended by unwinding; `hook`: `setup` called
 the system's setup hook; `gone`: the harness has seen the pool's panic handler run. The stages are the
 *model's* layout for the registration sequence (the harness obtains it with `layout`); the job
-task is `stagesTask` of it. Every request is one `Async.feed` step of the acceptor whose
-soundness is `Async.acceptsLog_sound`.
+task is `stagesTask` of it (any number of stages). Every request is one `Async.feed` step of the
+acceptor whose soundness is `Async.acceptsLog_sound`. The thread class `c` is the thread that drives
+the dispatcher in whatever calling context the harness runs the case (an ordinary thread, a worker
+of the dispatcher's own pool, a worker of another pool); the model does not depend on the context,
+so it is not part of the protocol.
 -/
 namespace Shred.Drv.Async
 open Shred Shred.Async
